@@ -443,6 +443,96 @@ theorem C19_header_identity_eq_status (pfx : List Char) (t : Tables) :
     obtain ⟨s', _, rfl⟩ := List.mem_map.mp hb
     exact d13 (fileName_inj e1 e3 hab).2
 
+/-! ### `LanceroSource.Configure`: the active cards are distinct devices -/
+
+theorem activateLoop_spec (avail : List Dev) : ∀ (l : List Int) (acc : List Dev),
+    (acc.map (·.devnum)).Nodup →
+    ((activateLoop avail l acc).1.map (·.devnum)).Nodup ∧
+    ((activateLoop avail l acc).2 = true ↔
+      l.Nodup ∧ (∀ c ∈ l, c ∉ acc.map (·.devnum)) ∧ ∀ c ∈ l, ∃ d ∈ avail, d.devnum = c) := by
+  intro l
+  induction l with
+  | nil => intro acc h; simp [activateLoop, h]
+  | cons c cs ih =>
+    intro acc hacc
+    unfold activateLoop
+    cases hf : avail.find? (fun d => d.devnum == c) with
+    | none =>
+      refine ⟨hacc, ?_⟩
+      simp only [Bool.false_eq_true, false_iff]
+      rintro ⟨_, _, h3⟩
+      obtain ⟨d, hd, hdc⟩ := h3 c List.mem_cons_self
+      have := List.find?_eq_none.mp hf d hd
+      simp [hdc] at this
+    | some d =>
+      have hdc : d.devnum = c := by
+        have := List.find?_some hf
+        simpa using this
+      have hdm : d ∈ avail := List.mem_of_find?_eq_some hf
+      simp only
+      by_cases hany : acc.any (fun a => a.devnum == c) = true
+      · rw [if_pos hany]
+        refine ⟨hacc, ?_⟩
+        simp only [Bool.false_eq_true, false_iff]
+        rintro ⟨_, h2, _⟩
+        obtain ⟨a, ha, hac⟩ := List.any_eq_true.mp hany
+        exact h2 c List.mem_cons_self (List.mem_map.mpr ⟨a, ha, by simpa using hac⟩)
+      · rw [if_neg hany]
+        have hnot : c ∉ acc.map (·.devnum) := by
+          intro hm
+          obtain ⟨a, ha, hac⟩ := List.mem_map.mp hm
+          exact hany (List.any_eq_true.mpr ⟨a, ha, by simpa using hac⟩)
+        have hmap : (acc ++ [d]).map (·.devnum) = acc.map (·.devnum) ++ [c] := by
+          rw [List.map_append, List.map_cons, List.map_nil, hdc]
+        have hacc' : ((acc ++ [d]).map (·.devnum)).Nodup := by
+          rw [hmap]
+          refine List.nodup_append.mpr ⟨hacc, by simp, ?_⟩
+          intro a ha b hb hab
+          simp only [List.mem_singleton] at hb
+          subst hb; subst hab; exact hnot ha
+        obtain ⟨i1, i2⟩ := ih (acc ++ [d]) hacc'
+        refine ⟨i1, ?_⟩
+        rw [i2, hmap]
+        constructor
+        · rintro ⟨h1, h2, h3⟩
+          refine ⟨List.nodup_cons.mpr ⟨?_, h1⟩, ?_, ?_⟩
+          · intro hc; exact h2 c hc (List.mem_append_right _ (List.mem_singleton.mpr rfl))
+          · intro x hx
+            rcases List.mem_cons.mp hx with rfl | hx
+            · exact hnot
+            · intro hm; exact h2 x hx (List.mem_append_left _ hm)
+          · intro x hx
+            rcases List.mem_cons.mp hx with rfl | hx
+            · exact ⟨d, hdm, hdc⟩
+            · exact h3 x hx
+        · rintro ⟨h1, h2, h3⟩
+          have h1' := List.nodup_cons.mp h1
+          refine ⟨h1'.2, ?_, fun x hx => h3 x (List.mem_cons_of_mem _ hx)⟩
+          intro x hx hm
+          rcases List.mem_append.mp hm with hm | hm
+          · exact h2 x (List.mem_cons_of_mem _ hx) hm
+          · simp only [List.mem_singleton] at hm
+            subst hm; exact h1'.1 hx
+
+/-- **Configure never activates a device twice.** Whatever `ActiveCards` list is sent (unsorted, repeats at any
+distance, unknown cards) and whether the request is accepted or refused, the active cards it leaves have pairwise
+distinct device numbers — so the hypothesis `DevnumsOK` of the Lancero theorems holds for every configuration a
+`Start` can see; and the request is accepted exactly when the list has no repeat at all and names only existing devices. -/
+theorem C19_configure_devnums_distinct (avail : List Dev) (o : LObj) (r : LReq) :
+    ((lanceroConfigure avail o r).1.cfg.devs.map (·.devnum)).Nodup ∧
+    (lanceroConfigure avail o r).1.cfg.DevnumsOK ∧
+    ((lanceroConfigure avail o r).2 = true ↔ r.active.Nodup ∧ ∀ c ∈ r.active, ∃ d ∈ avail, d.devnum = c) := by
+  obtain ⟨h1, h2⟩ := activateLoop_spec avail r.active [] (by simp)
+  refine ⟨h1, fun _ => h1, ?_⟩
+  simp only [lanceroConfigure]
+  rw [h2]
+  simp
+
+/-- repeats at any distance are refused: `[0, 1, 0]` and `[1, 0, 2, 1]` leave the cards before the repeat -/
+example : (lanceroConfigure [⟨0, 2, 4⟩, ⟨1, 2, 4⟩, ⟨2, 2, 4⟩] LObj.fresh ⟨[0, 1, 0], 1, 100, 0⟩).2 = false ∧
+    ((lanceroConfigure [⟨0, 2, 4⟩, ⟨1, 2, 4⟩, ⟨2, 2, 4⟩] LObj.fresh ⟨[1, 0, 2, 1], 1, 100, 0⟩).1.cfg.devs.map (·.devnum)) = [1, 0, 2] ∧
+    (lanceroConfigure [⟨0, 2, 4⟩, ⟨1, 2, 4⟩, ⟨2, 2, 4⟩] LObj.fresh ⟨[2, 0, 1], 1, 100, 0⟩).2 = true := by decide
+
 /-! ### One source object, many calls -/
 
 /-- a history seen through the configuration alone -/
